@@ -558,6 +558,34 @@ def app_case(role, flavour, name):
                 if meth == 'on_metadata_push':
                     extra[meth] = ('special', lambda h, p, routing=routing: routing.on_metadata_push(P(None, bytes(p.metadata)[4:])))
                 frames, off = [raw], ({0} if meth == 'on_metadata_push' else {sid})
+            elif name.startswith('router-garbage:'):
+                # a routed request whose metadata is not valid composite metadata: it must fail alone
+                from rsocket.routing.request_router import RequestRouter
+                from rsocket.routing.routing_request_handler import RoutingRequestHandler
+                from rsocket.extensions.helpers import composite, route
+                _, gk, meth = name.split(':')
+                router = RequestRouter()
+                kind = {'request_response': 'response', 'request_stream': 'stream', 'request_channel': 'channel',
+                        'request_fire_and_forget': 'fire_and_forget', 'on_metadata_push': 'metadata_push'}[meth]
+
+                @getattr(router, kind)('fine')
+                async def fine(payload):
+                    return None
+
+                routing = RoutingRequestHandler(router)
+                good = bytes(composite(route('fine')))
+                md = {'truncated-entry': good[:-2], 'length-past-end': good[:1] + b'\x00\xff\xff' + good[4:], 'lone-byte': b'\xfe',
+                      'zero-length-name': b'\x00\x00\x00\x00', 'non-utf8-route': bytes(composite(route(b'\xff\xfe\xfd'))) if False else good[:-4] + b'\xff\xfe\xfd\xfc',
+                      'tag-length-past-end': good[:4] + b'\xf0' + good[5:], 'huge-custom-name': b'\x7f' + b'x' * 20}[gk]
+                extra[meth] = ('special', lambda h, p, routing=routing, meth=meth: getattr(routing, meth)(p))
+                raw = {'request_response': R.enc_request(R.REQUEST_RESPONSE, sid, b'boom', md),
+                       'request_stream': R.enc_request(R.REQUEST_STREAM, sid, b'boom', md, n=2),
+                       'request_channel': R.enc_request(R.REQUEST_CHANNEL, sid, b'boom', md, n=2),
+                       'request_fire_and_forget': R.enc_request(R.REQUEST_FNF, sid, b'boom', md),
+                       'on_metadata_push': R.enc_metadata_push(b'boom' + md)}[meth]
+                if meth == 'on_metadata_push':
+                    extra[meth] = ('special', lambda h, p, routing=routing: routing.on_metadata_push(P(None, bytes(p.metadata)[4:])))
+                frames, off = [raw], ({0} if meth == 'on_metadata_push' else {sid})
             elif name.startswith('rx3-') or name.startswith('rx4-'):
                 if name.startswith('rx3-'):
                     import rx as RX
@@ -652,6 +680,8 @@ APP_CASES_SERVER = (['handler-%s-raises%s' % (m, a) for m in ('request_response'
                        'generator-raises', 'async-generator-raises', 'channel-subscriber-raises-S', 'channel-subscriber-raises-N',
                        'channel-subscriber-raises-C', 'channel-subscriber-raises-E']
                     + ['router-raises-%s' % m for m in ('request_response', 'request_stream', 'request_channel', 'request_fire_and_forget', 'on_metadata_push')]
+                    + ['router-garbage:%s:%s' % (g, m) for g in ('truncated-entry', 'length-past-end', 'lone-byte', 'zero-length-name', 'non-utf8-route', 'tag-length-past-end', 'huge-custom-name')
+                       for m in ('request_response', 'request_stream', 'request_channel', 'request_fire_and_forget', 'on_metadata_push')]
                     + ['%s-%s' % (a, wh) for a in ('rx3', 'rx4') for wh in ('observable-errors-at-once', 'observable-errors-after-one', 'response-errors')]
                     + ['publisher-errors', 'on_error-raises']
                     + ['returns-%s-%s' % (wh, m) for wh in ('none', 'junk') for m in ('request_response', 'request_stream', 'request_channel')]
